@@ -34,12 +34,15 @@ def tok_fields(t):
     return (str(t.type), as_text(t.value), t.start_pos, t.line, t.column, t.end_line, t.end_column, t.end_pos)
 
 
-def token_claim(buf, t, dynamic):
-    """None if token t satisfies the C06 token claim in buffer buf, else a description."""
+def token_claim(buf, t, dynamic, lo=0, hi=None):
+    """None if token t satisfies the C06 token claim in buffer buf (window [lo, hi)), else a description."""
     ty, val, s, ln, col, eln, ecol, e = tok_fields(t)
     if None in (s, ln, col, eln, ecol, e):
         return 'token %s %r lacks a position field: %r' % (ty, val, (s, ln, col, eln, ecol, e))
-    if not (0 <= s <= e <= len(buf)) or as_text(buf[s:e]) != val:
+    hi = len(buf) if hi is None else hi
+    if not (lo <= s <= e <= hi):
+        return 'token %s %r [%d,%d) lies outside the input window [%d,%d)' % (ty, val, s, e, lo, hi)
+    if as_text(buf[s:e]) != val:
         return 'token %s: text[%d:%d] = %r differs from the value %r' % (ty, s, e, as_text(buf[s:e]), val)
     if (ln, col) != coord(buf, s):
         return 'token %s %r at offset %d: line/column %r, exact coordinates %r' % (ty, val, s, (ln, col), coord(buf, s))
